@@ -2,7 +2,7 @@
 from .. import container
 from ..core import Sub, build_machine, run_history
 
-PROP = {'id': 'C09', 'level': 'exploration', 'technique': 'Hypothesis RuleBasedStateMachine over add / remove / replace / setter histories from compact files; after every successful operation an independent parse must show live blocks back to back in table order, trailing free slots carrying the end-of-data offset, file length = header + table + sum of sizes, and the exact size delta of the operation', 'level_text': 'Exploration of histories with the compactness formula as invariant; removals of the first, a middle, the last and the sole live block are all generated (evidence lists the counts) for table lengths 1..16 with any number of live and unused slots behind the removed one.', 'level_note': 'Trusted: reftdf.compact_problems (the same predicate holds on the BTS-recorded capture). Starts only from compact images.', 'design_ref': 'DESIGN.md section 4, C09', 'rule': 'case = {init image, ops}; non-trivial = a removal of the first / a middle / the last live block while at least one other block is live; distinct by sha1 of the history', 'assumptions': []}
+PROP = {'id': 'C09', 'level': 'exploration', 'technique': 'Hypothesis RuleBasedStateMachine over add / remove / replace / setter histories from compact files; after every successful operation an independent parse must show live blocks back to back in table order, trailing free slots carrying the end-of-data offset, file length = header + table + sum of sizes, and the exact size delta of the operation; enumerated scripts (equal sizes incl. zero-size blocks, fill levels, tails up to 16 MiB), also in a child interpreter started with -O', 'level_text': 'Exploration of histories with the compactness formula as invariant; removals of the first, a middle, the last and the sole live block are all generated (evidence lists the counts) for table lengths 1..16 with any number of live and unused slots behind the removed one.', 'level_note': 'Trusted: reftdf.compact_problems (the same predicate holds on the BTS-recorded capture). Starts only from compact images.', 'design_ref': 'DESIGN.md section 4, C09', 'rule': 'case = {init image, ops}; non-trivial = a removal of the first / a middle / the last live block while at least one other block is live; distinct by sha1 of the history', 'assumptions': []}
 
 GROUPS = {"C09"}
 REFUSALS = False
